@@ -311,6 +311,15 @@ func nondetSites(fns []*ssa.Function) []ndSite {
 					if f := keeperHeldRoot(x.Map); f != "" {
 						out = append(out, ndSite{fn, in, "keeperstate", "write to map held by " + f, false, "a map held by a keeper is updated on a consensus path: process-local state that is not part of the store"})
 					}
+				case *ssa.UnOp:
+					// a package-level variable initialised from a host-dependent source (var DefaultStartTime = time.Now()):
+					// reading it is reading the wall clock of the process start
+					if g, isG := x.X.(*ssa.Global); isG && x.Op == token.MUL {
+						if src := hostDependentGlobal(g); src != "" {
+							ok2 := flowsOnlyToTelemetry(x, 0)
+							out = append(out, ndSite{fn, in, "hostglobal", "read of " + g.Name() + " (initialised from " + src + ")", ok2, map[bool]string{true: "the value flows only into telemetry", false: "a package variable that every process initialises for itself (" + src + " at start-up) is read on a consensus path: replicas started at different moments compute with different values"}[ok2]})
+						}
+					}
 				case *ssa.Convert:
 					if bt, ok := x.Type().Underlying().(*types.Basic); ok && bt.Info()&types.IsFloat != 0 {
 						if st, ok := x.X.Type().Underlying().(*types.Basic); ok && st.Info()&types.IsFloat == 0 {
@@ -372,7 +381,7 @@ func checkC11(w *World, r *Report) {
 		"floating point inside telemetry is not state and is allowed",
 	}
 	r.Rule("C11.inventory", "P4", "on everything reachable from messages, ValidateBasic, block routines, InitGenesis, migrations and upgrade handlers: every range over a map is order-insensitive (only map inserts / membership tests, or keys collected and sorted before use); wall-clock and float values flow only into telemetry; no randomness, environment reads, goroutines, select, reflect map iteration, sync.Map iteration or writes to package-level variables", 3)
-	r.Rule("C11.controls", "selftest", "positive controls: the same detector must report every deliberate instance in /verif/selftest/nondet and stay silent on its two harmless loops", 13)
+	r.Rule("C11.controls", "selftest", "positive controls: the same detector must report every deliberate instance in /verif/selftest/nondet and stay silent on its harmless twins", 15)
 	if !ro.checkFloors(r) {
 		return
 	}
@@ -451,6 +460,7 @@ func c11Controls(w *World, r *Report) {
 		"Goroutine": "reported:goroutine", "Select": "reported:select", "ReflectKeys": "reported:reflectmap", "SyncMap": "reported:syncmap",
 		"WriteGlobal": "reported:globalwrite", "Float": "reported:float",
 		"LocalZoneText": "reported:localzone", "LocalZoneAddDate": "reported:localzone", "LocalZoneInstantOK": "silent", "LocalZoneUTCOK": "silent",
+		"HostGlobal": "reported:hostglobal", "ConstGlobalOK": "nothing found",
 		"WriteKeeperCache": "reported:keeperstate", "WriteKeeperMap": "reported:keeperstate", "LocalCopyOK": "nothing found",
 	}
 	var names []string
@@ -597,4 +607,55 @@ func zoneInsensitiveUse(v ssa.Value, depth int) (bool, string) {
 		}
 	}
 	return true, ""
+}
+
+var hostGlobalCache = map[*ssa.Global]string{}
+
+// hostDependentGlobal: the package initialiser assigns the variable a value computed from a host-dependent source
+// (wall clock, randomness, environment); returns the source's name, "" otherwise.
+func hostDependentGlobal(g *ssa.Global) string {
+	if s, ok := hostGlobalCache[g]; ok {
+		return s
+	}
+	hostGlobalCache[g] = ""
+	if g.Pkg == nil {
+		return ""
+	}
+	initf := g.Pkg.Func("init")
+	if initf == nil {
+		return ""
+	}
+	var src func(v ssa.Value, d int) string
+	src = func(v ssa.Value, d int) string {
+		if d > 8 || v == nil {
+			return ""
+		}
+		if c, ok := v.(*ssa.Call); ok {
+			n := callName(c.Common())
+			if n == "time.Now" || strings.HasPrefix(n, "math/rand.") || strings.HasPrefix(n, "crypto/rand.") || n == "os.Getenv" || n == "os.Hostname" || n == "os.Getpid" || n == "os.LookupEnv" {
+				return n
+			}
+		}
+		if in, ok := v.(ssa.Instruction); ok {
+			for _, op := range in.Operands(nil) {
+				if op != nil && *op != nil {
+					if s := src(*op, d+1); s != "" {
+						return s
+					}
+				}
+			}
+		}
+		return ""
+	}
+	for _, b := range initf.Blocks {
+		for _, in := range b.Instrs {
+			if st, ok := in.(*ssa.Store); ok && st.Addr == ssa.Value(g) {
+				if s := src(st.Val, 0); s != "" {
+					hostGlobalCache[g] = s
+					return s
+				}
+			}
+		}
+	}
+	return ""
 }
